@@ -88,3 +88,21 @@ def history(rng: random.Random, universe, n_ops, swarm, model: Model | None = No
         else:
             ops.append({'op': 'checkpoint'})
     return ops
+
+
+def sprinkle_faults(prng, plan, n=1):
+    """Attach a random fault to up to *n* add/remove/add_ili ops of a history."""
+    cands = [i for i, op in enumerate(plan) if op['op'] in ('add', 'remove', 'add_ili')]
+    for i in prng.sample(cands, min(len(cands), n)):
+        k = prng.choice(['F1', 'F1', 'F3', 'F3', 'F2'])
+        f = {'kind': k}
+        if k == 'F1':
+            f['at'] = prng.choice([2, 3, 5, 8, 13, 21, 34, 55])
+            f['exc'] = prng.choice(['fault', 'interrupt'])
+        elif k == 'F3':
+            f['at'] = prng.choice([2, 3, 5, 8, 13, 21, 34])
+            f['mid'] = prng.random() < 0.3
+        else:
+            f['at'] = prng.choice([3, 9, 27, 81])
+        plan[i] = dict(plan[i], fault=f)
+    return plan
